@@ -91,6 +91,24 @@ pub fn replay(w: &Value) -> Option<bool> {
             let m = pr.get_mut(0)?.matches(&q.req);
             Some(Some(m) == w["expect"].as_bool())
         }
+        "hostile-bytes-then-query" => {
+            // load the bytes (expected to succeed or fail cleanly), then query: nothing may panic
+            let hexs = g("bytes_hex");
+            let bytes: Vec<u8> = (0..hexs.len() / 2).filter_map(|i| u8::from_str_radix(&hexs[2 * i..2 * i + 2], 16).ok()).collect();
+            let r = crate::util::guarded(move || {
+                let mut e = Engine::new(true);
+                let _ = e.deserialize(&bytes);
+                for (u, t) in [("https://h.test/re12", "script"), ("https://cdn.test/a", "document"), ("https://r.test/x/a", "script")] {
+                    if let Ok(q) = adblock::request::Request::new(u, "https://a.com/", t) {
+                        let _ = e.check_network_request(&q);
+                        let _ = e.get_csp_directives(&q);
+                    }
+                }
+                let _ = e.url_cosmetic_resources("https://example.com/");
+                let _ = e.serialize_raw();
+            });
+            Some(r.is_ok())
+        }
         "deserialize-bytes" => {
             let hexs = g("bytes_hex");
             let bytes: Vec<u8> = (0..hexs.len() / 2).filter_map(|i| u8::from_str_radix(&hexs[2 * i..2 * i + 2], 16).ok()).collect();
